@@ -69,6 +69,16 @@ PROPS = {
         not_covered=["expand_message_xmd / expand_message_xof and the hash primitives (C13 scope, D3)", "SSWU (C15) and isogeny (C16) internals"],
         assumptions=[A['A4'], "contract of hash_to_field (count elements, element i a function of (msg,dst,count,i)) assumed here", A['TOOLS']],
     ),
+    'C07': dict(
+        units_quick=['scalar'], units_thorough=['scalar', 'curve', 'cofactor', 'h2c'], timeout=600,
+        claim="the membership predicate (real bodies, G1 and G2): in_subgroup(p) == (p is the identity or y^2 = x^3 + b) and [r]p = O, composed of "
+              "is_on_curve (field formula exact), is_in_correct_subgroup_assuming_on_curve = mul(Fr::char()).is_zero() with mul the verified "
+              "double-and-add; scale_by_cofactor multiplies by exactly h1 / h2. Closure of the subgroup under the group operations is group theory over "
+              "the contracts of C01/C02; hash and map outputs: C14; decoders: C04/C19.",
+        not_covered=["random(): rejection loop over an RNG", "generators: [r]G = O is established by the baseline tests g1_generator / g2_generator, not by the verifier",
+                     "the values of Fr::char() (= r) and of the curve coefficient constant are closed-term facts assumed in this unit"],
+        assumptions=[A['A3'], A['A4'], "ff::BitIterator contract (MSB-first bits of the limb value) assumed: dependency", A['D_FQ'], A['TOOLS']],
+    ),
 }
 
 HOOK_COMMITS = []
